@@ -140,6 +140,9 @@ func cmdFunc(args []string) {
 		}
 	}
 	if bad > 0 {
+		if *work == "" {
+			os.RemoveAll(wd)
+		}
 		os.Exit(1)
 	}
 }
